@@ -573,7 +573,13 @@ class _Validator(Generic[T]):
     def _process_description_content_type(self, value: str) -> str:
         content_types = {"text/plain", "text/x-rst", "text/markdown"}
         message = email.message.EmailMessage()
-        message["content-type"] = value
+        try:
+            message["content-type"] = value
+        except ValueError as exc:
+            # The email package refuses header values containing line breaks.
+            raise self._invalid_metadata(
+                f"{value!r} is invalid for {{field}}", cause=exc
+            ) from exc
 
         content_type, parameters = (
             # Defaults to `text/plain` if parsing failed.
